@@ -88,6 +88,12 @@ def closure(classes, ci, m, seen=()):
     return out
 
 
+class _Opaque:
+    """a value of a type param's Comparator does not know: never equal to anything, itself included, for changes-only filtering"""
+    def __repr__(self):
+        return 'OPAQUE'
+
+
 class DependsWorld:
     name = 'depends'
     props = ('C06', 'C07')
@@ -484,7 +490,7 @@ class DependsWorld:
         hows = [('any', 3), ('equal', 2), ('first', 1.5), ('later', 2)]
         for _ in range(n_ops):
             k = weighted(rng, [('attach', 6), ('detach', 1.0), ('leaf', 6), ('leaf2', 1.5), ('swap2', 2 if len(slots) > 1 else 0), ('own', 0.7),
-                               ('subbatch', 1.2), ('swap_twice', 1.0), ('batch_leaf', 2.0),
+                               ('subbatch', 1.2), ('swap_twice', 1.0), ('batch_leaf', 2.0), ('leaf_opq', 1.0),
                                ('drain', 1.0 if any(m.get('async') for m in methods) else 0)])
             if k == 'drain':
                 ops.append({'op': 'drain'})
@@ -504,6 +510,8 @@ class DependsWorld:
                             'how': weighted(rng, hows)})
             elif k == 'detach':
                 ops.append({'op': 'detach', 'at': rng.randint(0, cfg['pool']), 'slot': rng.choice(slots)})
+            elif k == 'leaf_opq':
+                ops.append({'op': 'leaf_opq', 'n': rng.randrange(cfg['pool']), 'p': rng.choice(leafs), 'how': rng.choice(['set', 'set', 'trigger', 'trigger_batched'])})
             elif k == 'leaf':
                 ops.append({'op': 'leaf', 'n': rng.randrange(cfg['pool']), 'p': rng.choice(leafs), 'same': rng.random() < 0.15})
             elif k == 'leaf2':
@@ -786,6 +794,60 @@ class DependsWorld:
                         poked_detached = True
                         out.stats['probe.detached_node_poked'] += 1
                     desc = f"{k} N{n} {vals}"
+                elif k == 'leaf_opq':
+                    # A leaf holds a value of a type the library cannot compare (think of a data frame): assigning the very same object
+                    # again is how an in-place modification is announced, and it counts as a change for every changes-only watcher -
+                    # hence for every method that reaches the leaf through the current path (regression found by a reviewer in the
+                    # repair 4a0bd4c: the parent's method was skipped because old is new).  'trigger': the same announced with
+                    # param.trigger on the object that holds the leaf.
+                    n = op['n'] % len(pool)
+                    pn = op['p']
+
+                    def reaches(dep):
+                        parts = dep.split('.')
+                        if len(parts) == 1:
+                            return False
+                        cur = 'P'
+                        for sl in parts[:-1]:
+                            cur = att[(cur, sl)]
+                            if cur is None:
+                                return False
+                        return cur == n and parts[-1] in (pn, 'param')
+                    affected = [mi for mi, m in enumerate(cfg['methods']) if any(reaches(d) for d in m['deps'])]
+                    opq = _Opaque()
+                    def trigger_batched():
+                        with param.parameterized.batch_call_watchers(pool[n]):
+                            pool[n].param.trigger(pn)
+                    phases = [('a value of an uncomparable type assigned', lambda: setattr(pool[n], pn, opq)),
+                              {'trigger': ('param.trigger on the leaf after an in-place modification', lambda: pool[n].param.trigger(pn)),
+                               'trigger_batched': ('param.trigger on the leaf inside batch_call_watchers on the object that holds it',
+                                                   trigger_batched)}.get(
+                                  op.get('how'), ('the very same object assigned again', lambda: setattr(pool[n], pn, opq)))]
+                    for what_, act in phases:
+                        del log[:]
+                        act()
+                        settle()
+                        for mi, m in enumerate(cfg['methods']):
+                            exp = 1 if mi in affected else 0
+                            if log.count(mi) != exp and not out.violations:
+                                out.violations.append(('C07.fire' if exp else 'C07.silent', step,
+                                                       f"leaf_opq N{n}.{pn}: {what_}: m{mi} depends on {m['deps']} and "
+                                                       f"{'reaches' if exp else 'does not reach'} that leaf through the current path; it ran "
+                                                       f"{log.count(mi)} times, expected {exp}"))
+                        if out.violations:
+                            break
+                    if out.violations:
+                        break
+                    out.stats['probe.same_uncomparable_object_reassigned_to_leaf'] += 1 if affected else 0
+                    # ... and back to a plain value, judged like any other leaf assignment
+                    counter[0] += 1
+                    del log[:]
+                    before = snapshot()
+                    setattr(pool[n], pn, counter[0])
+                    leaf[n][pn] = counter[0]
+                    if n not in reachable() and n in ever_attached:
+                        poked_detached = True
+                    desc = f"leaf_opq N{n}.{pn} = {counter[0]}"
                 elif k == 'batch_leaf':
                     # inside a batch on the holder: a slot is replaced (announced when the batch ends) and a leaf of the NEW object
                     # is assigned. For the object that declares the methods the dependencies follow at once (the leaf change is
